@@ -177,6 +177,7 @@ func C08(run *hx.Run) {
 	}
 	wg.Wait()
 	c08TransientFault(run, dir)
+	c08CommitAtLockRequest(run, dir)
 	nConc := 6
 	if run.Thorough() {
 		nConc = 60
@@ -679,6 +680,124 @@ func c08TransientFault(run *hx.Run, dir string) {
 			} else {
 				run.Count("transient_fault_cases_ok", 1)
 			}
+		}
+	}
+}
+
+// c08CommitAtLockRequest: another connection commits at the last possible moment before a read transaction
+// begins - between the call of the operation and its lock request (pager hook). The lock is granted after
+// the commit has finished, so that read transaction must already show the new state. The handle is long-lived
+// and warm: every page and the schema are cached from earlier reads, and the file is larger than the
+// page cache so that a stale header would mix cached and fresh pages.
+func c08CommitAtLockRequest(run *hx.Run, dir string) {
+	o := mustOracle(run)
+	if o == nil {
+		return
+	}
+	defer o.Close()
+	sizes := []int{1024}
+	if run.Thorough() {
+		sizes = []int{512, 1024, 4096}
+	}
+	for _, ps := range sizes {
+		for _, nrows := range []int{60, 3000} {
+			path := filepath.Join(dir, fmt.Sprintf("atlock-%d-%d.sqlite", ps, nrows))
+			os.Remove(path)
+			if err := makeVersionedDB(o, path, ps, nrows); err != nil {
+				run.Inconclusive("commit-at-lock db: " + err.Error())
+				return
+			}
+			h, err := c06Open(path, 0)
+			if err != nil {
+				run.Violation("C08/commit-at-lock-request/open", "open: "+err.Error(), nil)
+				continue
+			}
+			version := 1000
+			ops := []string{"Select", "IndexedSelect", "SelectRowid", "PKSelect", "IndexedSelectEq", "Columns", "Select-meta"}
+			for round := 0; round < 3; round++ {
+				for _, op := range ops {
+					// warm: two full reads so that caches are as full as they get
+					h.hi.Select("t", func(sqlittle.Row) {}, "id", "v", "ver", "pad")
+					h.hi.IndexedSelect("t", "ix_t_v", func(sqlittle.Row) {}, "id", "v", "ver", "pad")
+					h.hi.Select("meta", func(sqlittle.Row) {}, "version")
+					version++
+					committed := false
+					var cerr error
+					h.tp.PreLock = func() {
+						if committed {
+							return
+						}
+						committed = true
+						stmts := []string{"BEGIN IMMEDIATE", fmt.Sprintf("UPDATE meta SET version=%d", version),
+							fmt.Sprintf("UPDATE t SET ver=%d, v=(id*31+%d)%%1000", version, version), "COMMIT"}
+						if op == "Columns" {
+							stmts = []string{fmt.Sprintf("ALTER TABLE t ADD COLUMN extra%d DEFAULT %d", version, version)}
+						}
+						cerr = o.Exec(path, stmts...)
+					}
+					var vers []int64
+					var cols []string
+					var rerr error
+					n := 0
+					cb := func(r sqlittle.Row) {
+						n++
+						if v, ok := r[0].(int64); ok {
+							vers = append(vers, v)
+						}
+					}
+					switch op {
+					case "Select":
+						rerr = h.hi.Select("t", cb, "ver")
+					case "IndexedSelect":
+						rerr = h.hi.IndexedSelect("t", "ix_t_v", cb, "ver")
+					case "SelectRowid":
+						var r sqlittle.Row
+						r, rerr = h.hi.SelectRowid("t", 5, "ver")
+						if r != nil {
+							cb(r)
+						}
+					case "PKSelect":
+						rerr = h.hi.PKSelect("t", sqlittle.Key{int64(7)}, cb, "ver")
+					case "IndexedSelectEq":
+						// the row with id 9 has v=(9*31+version)%1000 in the new state only
+						rerr = h.hi.IndexedSelectEq("t", "ix_t_v", sqlittle.Key{int64((9*31 + version) % 1000)}, cb, "ver")
+					case "Columns":
+						cols, rerr = h.hi.Columns("t")
+					case "Select-meta":
+						rerr = h.hi.Select("meta", cb, "version")
+					}
+					h.tp.PreLock = nil
+					run.Eval(1)
+					run.Distinct(fmt.Sprintf("atlock/%d/%d/%s/%d", ps, nrows, op, round))
+					key := "C08/commit-at-lock-request/" + op
+					detail := hx.M{"page_size": ps, "rows": nrows, "op": op, "version": version}
+					switch {
+					case !committed:
+						run.Inconclusive("commit-at-lock: the lock request of " + op + " was never seen")
+					case cerr != nil:
+						run.Inconclusive("commit-at-lock: the injected commit failed: " + cerr.Error())
+					case rerr != nil:
+						run.Violation(key+"/error", fmt.Sprintf("%s failed although the commit had finished before its lock request: %v", op, rerr), detail)
+					case op == "Columns":
+						want := fmt.Sprintf("extra%d", version)
+						if len(cols) == 0 || cols[len(cols)-1] != want {
+							run.Violation(key+"/stale", fmt.Sprintf("a column was added and committed before the lock request of Columns; result %v lacks %s", cols, want), detail)
+						}
+					default:
+						if n == 0 {
+							run.Violation(key+"/stale", fmt.Sprintf("version %d was committed before the lock request of %s; the read found no row of it", version, op), detail)
+						}
+						for _, v := range vers {
+							if v != int64(version) {
+								run.Violation(key+"/stale", fmt.Sprintf("version %d was committed before the lock request of %s (page size %d, %d rows); the read returned a row of version %d", version, op, ps, nrows, v), detail)
+								break
+							}
+						}
+					}
+				}
+			}
+			h.low.Close()
+			run.See("commit_at_lock_request", fmt.Sprintf("ps=%d rows=%d", ps, nrows))
 		}
 	}
 }
